@@ -1924,6 +1924,8 @@ impl SourceTextModule {
             .vm
             .pop_frame()
             .js_expect("There should be a call frame")?;
+        // The frame was pushed together with its `this`, function and register slots.
+        context.vm.stack.truncate_to_frame(&frame);
 
         let env = frame
             .environments
